@@ -310,6 +310,21 @@ theorem irfftn_rfftn (conj : R → R) (hc : IsConj conj) (ρs : List (Root R)) (
   rw [← hf.shape] at hj hρ hcr ⊢
   exact irfftn_rfftn_arr conj hc ρs f.nvdim f.data hρ hcr hreal j hj c hcv
 
+/-- without an explicit shape the real round trip still restores the field when the last count
+is even or 1 (the default output count `2·(n_k - 1)`, or 1, is then the original one) -/
+theorem irfftn_rfftn_default (conj : R → R) (hc : IsConj conj) (ρs : List (Root R)) (f : CF R) (hf : CFInv f)
+    (hρ : Roots f.mesh.n ρs) (hcr : ConjRoots conj f.mesh.n ρs)
+    (hreal : ∀ i c, conj (compA f.data c i) = compA f.data c i)
+    (hlast : f.mesh.nAt (f.mesh.ndim - 1) % 2 = 0 ∨ f.mesh.nAt (f.mesh.ndim - 1) = 1) :
+    ∃ g h, rfftn ρs f = .ok g ∧ irfftn conj ρs g none = .ok h ∧
+      h.mesh = originMesh f.mesh f.mesh.n ∧ h.vdims = f.vdims ∧ h.vmap = f.vmap ∧
+      ∀ j, inRange f.mesh.n j = true → ∀ c, c < f.nvdim → compA h.data c j = compA f.data c j := by
+  refine ⟨_, _, rfftn_ok ρs f hf, irfftn_rfftn_ok_default conj ρs f hf hlast, rfl, rfl, rfl, ?_⟩
+  intro j hj c hcv
+  show compA (irfftnArr conj ρs f.nvdim f.mesh.n (rfftnArr ρs f.nvdim f.data)) c j = _
+  rw [← hf.shape] at hj hρ hcr ⊢
+  exact irfftn_rfftn_arr conj hc ρs f.nvdim f.data hρ hcr hreal j hj c hcv
+
 /-- **The real transform is the matching half of the full one**: cell `m` of `rfftn` (last
 index `j ≤ ⌊n/2⌋`, unshifted there) holds what `fftn` holds in the cell with the same leading
 indices and last index `(j + ⌊n/2⌋) mod n` — the cell of the same DFT frequency. -/
